@@ -115,6 +115,9 @@ func subject(p *schema.Prog, line string) string {
 		}
 	}
 	if p.Fam == "const" || p.Fam == "module" {
+		if k := strings.Index(p.ID, "/"); k > 0 {
+			return p.ID[:k] // the creation order of mod:unnamed/<order> is not part of the signature
+		}
 		return p.ID
 	}
 	return p.Fam + ":" + opcodeOf(line)
